@@ -66,6 +66,45 @@ def num(x):
     return INF if x == 'inf' else x
 
 
+import enum as _enum
+
+
+class Phase(_enum.Enum):
+    """values that themselves have a ``.value`` attribute"""
+    IDLE = 1
+    BUSY = 2
+    DONE = 3
+
+
+class Box:
+    """a value with a misleading ``.value``: equality follows the label only"""
+    def __init__(self, label, value):
+        self.label, self.value = label, value
+
+    def __eq__(self, other):
+        return isinstance(other, Box) and other.label == self.label
+
+    def __ne__(self, other):
+        return not self == other
+
+    def __hash__(self):
+        return hash(self.label)
+
+    def __repr__(self):
+        return 'Box(%r)' % (self.label,)
+
+
+def val(x):
+    """values of tracked objects / right operands: plain data, or {"$": "enum", "n": name} / {"$": "box", "l": label, "v": value}"""
+    if isinstance(x, dict) and '$' in x:
+        if x['$'] == 'enum':
+            return Phase[x['n']]
+        if x['$'] == 'box':
+            return Box(x['l'], x['v'])
+        raise ValueError(x)
+    return x
+
+
 def make_obj(spec):
     kind = spec[0] if isinstance(spec, (list, tuple)) else spec
     args = spec[1:] if isinstance(spec, (list, tuple)) else ()
@@ -78,7 +117,7 @@ def make_obj(spec):
     if kind == 'Channel':
         return Channel()
     if kind == 'Tracked':
-        return Tracked(args[0])
+        return Tracked(val(args[0]))
     if kind == 'Resources':
         return Resources(**args[0])
     if kind == 'Capacities':
@@ -122,7 +161,7 @@ class Interp:
         if k == 'NF':
             return ~o[e[1]]
         if k == 'T':
-            return CMP[e[2]](o[e[1]], e[3])
+            return CMP[e[2]](o[e[1]], val(e[3]))
         if k == 'TT':         # comparison of two tracked values
             return CMP[e[2]](o[e[1]], o[e[3]])
         if k == 'R':          # resource level comparison, e.g. ["R", "r0", ">=", {"a": 1}]
@@ -258,7 +297,7 @@ class Interp:
         await (~self.ctx.objs[f]).set(v)
 
     async def op_TSET(self, act, pc, x, v):
-        await self.ctx.objs[x].set(v)
+        await self.ctx.objs[x].set(val(v))
 
     async def op_TADD(self, act, pc, x, k):
         await (self.ctx.objs[x] + k)
